@@ -134,7 +134,9 @@ MUTANTS = [
     ('C12', 'pickling-failure-escapes-the-constructor (revert of 90c6019)', [R('lark/lark.py', "            except Exception:\n                # Not everything can be pickled", "            except ZeroDivisionError:\n                # Not everything can be pickled")]),
     ('C12', 'edit-terminals-pickled-into-cache (revert of 2cbbc29)', [R('lark/lark.py', "self.save(payload_f, _LOAD_ALLOWED_OPTIONS | {'edit_terminals'})", "self.save(payload_f, _LOAD_ALLOWED_OPTIONS)")]),
     ('C11', 'token-names-serialised-as-tokens (revert of the _serialize fix)', [R('lark/utils.py', "    elif isinstance(value, str) and type(value) is not str:\n", "    elif False:\n")]),
-    ('C11', 'standalone-embeds-import-paths (revert of the standalone fix)', [R('lark/tools/standalone.py', "    for name in ('import_paths', 'source_path'):\n        data['options'].pop(name, None)\n", "")]),
+    ('C11', 'standalone-embeds-import-paths (revert of the standalone fix)', [R('lark/tools/standalone.py', "    data['options'] = {n: v for n, v in data['options'].items() if n not in ('import_paths', 'source_path')}\n", "")]),
+    ('C11', 'standalone-pops-options-of-the-instance (revert of 1c51877)', [R('lark/tools/standalone.py', "    data['options'] = {n: v for n, v in data['options'].items() if n not in ('import_paths', 'source_path')}\n", "    for name in ('import_paths', 'source_path'):\n        data['options'].pop(name, None)\n")]),
+    ('C11', 'standalone-header-without-warnings (revert of cbf9ffd)', [R('lark/tools/standalone.py', "import warnings\nfrom copy import deepcopy\n", "from copy import deepcopy\n")]),
     ('C11', 'pattern-flags-left-as-list-on-load (revert of 68ca987)', [R('lark/lexer.py', "        self.flags = frozenset(self.flags)\n\n    def __repr__", "        pass\n\n    def __repr__")]),
     ('C12', 'option-dropped-from-key', [R('lark/lark.py', "unhashable = ('transformer', 'postlex', 'lexer_callbacks', 'edit_terminals', '_plugins')", "unhashable = ('transformer', 'postlex', 'lexer_callbacks', 'edit_terminals', '_plugins', 'maybe_placeholders')")]),
     ('C05', 'ordered-sets-ignored', [R('lark/parsers/earley.py', 'self.Set = OrderedSet if ordered_sets else set', 'self.Set = set')]),
